@@ -103,6 +103,15 @@ class Ctx:
             self.floor_failures.append('%s: only %d instance(s) of "%s" found, floor is %d - the rule would pass '
                                 'vacuously (anchor moved or idiom changed)' % (rule, got, name, floor))
 
+    def unrecognised(self, rule, node, func, what, detail):
+        """the construct this obligation is about was not found in any shape the rule can read: the rule cannot tell a reshaped step
+        from a missing one, so it REFUSES (exit 2, deferred like an instance floor) instead of reporting a violation"""
+        m = getattr(node, 'srcmod', None) if node is not None else None
+        where = '%s:%s' % (m.relpath, getattr(node, 'lineno', 0)) if m is not None else (func.qualname if hasattr(func, 'qualname') else str(func or ''))
+        msg = '%s: %s - %s [%s]' % (rule, what, detail, where)
+        if msg not in self.floor_failures:
+            self.floor_failures.append(msg)
+
     def assume(self, text):
         if text not in self.assumptions:
             self.assumptions.append(text)
